@@ -20,7 +20,7 @@ EXPLANATION = ("ac2poly, ac2rc, poly2ac, poly2rc, rc2poly, rc2ac (through the re
                "scipy.signal.deconvolve by exact long division).")
 BOUNDS = {
     "quick": "order <= 4 real, <= 3 complex for the rational conversions; vector length <= 2 for lar / inverse-sine; lsf2poly and the poly2lsf filters: orders 1..16",
-    "thorough": "order <= 6 real, <= 4 complex; length <= 3 for lar / inverse-sine; lsf2poly and the poly2lsf filters: orders 1..16",
+    "thorough": "order <= 6 real, <= 4 complex from reflection coefficients (<= 4 / 3 for the round trips that start from an autocorrelation); length <= 3 for lar / inverse-sine; lsf2poly and the poly2lsf filters: orders 1..16",
 }
 ASSUMPTIONS = ["floats modelled as exact reals", "domain: |k_i| < 1, r0 > 0 (or LEVINSON's own positive-definiteness path condition)",
                "tanh, arctanh, sin, arcsin: uninterpreted, with tanh(arctanh y)=y, arctanh(tanh y)=y, sin(arcsin y)=y (|y|<=1), "
@@ -383,6 +383,8 @@ def cases(tier, seed):
         for p in range(1, pmax + 1):
             out.append(Case("rc-roundtrips:%s:p=%d" % (tag, p), case_rc_roundtrips, dict(p=p, cplx=cplx),
                             timeout=120 if q else 600, max_paths=16, feas_timeout=5, wall=500 if q else 2400))
+            if p > (3 if cplx else 4):
+                continue        # the path on which LEVINSON would raise must be refuted by the solver: no verdict within budget at p = 5 (real) / 4 (complex)
             out.append(Case("ac-roundtrips:%s:p=%d" % (tag, p), case_ac_roundtrips, dict(p=p, cplx=cplx),
                             timeout=120 if q else 600, max_paths=16, feas_timeout=5, wall=500 if q else 2400))
     for n in ((1, 2) if q else (1, 2, 3)):
